@@ -50,6 +50,30 @@ protected:
     }
 };
 
+// libFuzzer inputs decoded as a choice tape: 1, 2 or 4 bytes per choice depending on the radix.
+struct ByteSrc: Src
+{
+    const uint8_t *d;
+    size_t n, pos = 0;
+    ByteSrc(const uint8_t *data, size_t size)
+        : d(data)
+        , n(size)
+    {
+    }
+    bool exhausted() const override { return pos >= n; }
+protected:
+    uint64_t raw(uint64_t radix) override
+    {
+        size_t w = radix <= 256 ? 1 : (radix <= 65536 ? 2 : 4);
+        uint64_t v = 0;
+        for (size_t i = 0; i < w; ++i) {
+            v |= static_cast<uint64_t>(pos < n ? d[pos] : 0) << (8 * i);
+            ++pos;
+        }
+        return v % radix;
+    }
+};
+
 // Depth-first enumeration of every choice sequence of a bounded generator.
 // Usage: ExhaustiveSrc s; do { s.rewind(); run(s); } while (s.advance());
 struct ExhaustiveSrc: Src
